@@ -100,7 +100,7 @@ def run(ctx):
 
     # ---------------------------------------------------------------- R3
     r = ctx.rule("C16-R3", "ORDER", "reaching the maximum always draws: the at-maximum draw is decided before the "
-                 "time throttle can return", reference=2)
+                 "time throttle can return", reference=4)
     sp = methods["set_progress"]
     cfg = ctx.cfg(sp)
     def is_max_test(e):
@@ -337,7 +337,7 @@ def run(ctx):
     section_order_rule(ctx, "C16-R8", reference=3)
     # ---------------------------------------------------------------- R11
     r = ctx.rule("C16-R11", "SENTINEL", "a placeholder whose message is set is replaced by the message, whatever the message is: whether a message exists is decided by membership in "
-                 "the message map, not by `.get()` / the truthiness of the message (the empty message is a message)", reference=2)
+                 "the message map, not by `.get()` / the truthiness of the message (the empty message is a message)", reference=1)
     n11 = 0
     for cls in (pb, ctx.cls("clikit.ui.components.progress_indicator.ProgressIndicator")):
         for name, m in sorted(cls.methods.items()):
